@@ -43,6 +43,9 @@ LEAVES = {
     'comment': ';c',
 }
 CLASS_OF = {v: k for k, v in LEAVES.items()}
+# reduced alphabet for trees with 6 nodes (thorough tier)
+LEAVES_6 = ['sym', 'kw', 'long80', 'longhyp', 'str_sp', 'str_open', 'str_nl',
+            'str_dq', 'q_sp', 'q_nl', 'q_semi', 'comment']
 MODES = ['checking', 'default', 'pretty', 'wrap']
 
 
@@ -157,7 +160,9 @@ def run_unit(unit):
         _, nnodes, shape_idx = unit
         shp = list(sexp.shapes(nnodes))[shape_idx]
         k = sexp.count_leaves(shp)
-        for combo in itertools.product(LEAVES.values(), repeat=k):
+        alphabet = list(LEAVES.values()) if nnodes <= 5 else \
+            [LEAVES[c] for c in LEAVES_6]
+        for combo in itertools.product(alphabet, repeat=k):
             tree = sexp.fill(shp, iter(combo))
             text = to_text(tree) + '\n'
             n += 1
@@ -249,7 +254,8 @@ def main(tier):
     rep.set(
         'rule',
         f'all trees with <= {ntree} nodes (empty lists included) over '
-        f'{len(LEAVES)} lexical-class leaves; all forests of two trees with '
+        f'{len(LEAVES)} lexical-class leaves ({len(LEAVES_6)} classes for trees '
+        'with 6 nodes); all forests of two trees with '
         f'<= {nforest} nodes; column sweep: every leaf class at 135 prefix '
         'lengths x 4 continuations x 2 depths (start columns 3..95). Each '
         'source text is parsed by ddSMT and rendered by the 4 renderers; '
